@@ -95,7 +95,41 @@ func (x *Xlat) havocLoop(st *State, fr *Frame, out *Outcomes, nodes ...ast.Node)
 		// the literal's effects, including assignments to the variables it captured, happen in this loop too
 		x.havocBoundClosureCalls(st, fr, n, map[*ast.FuncLit]bool{})
 	}
+	// values held in local variables point to allocated objects / arrays (or are nil)
+	for _, k := range keys {
+		if v, ok := st.env[k]; ok && strings.HasPrefix(k, "v$") {
+			if f := x.allocFacts(st, v, 0); !f.IsTrue() {
+				st.assume(f)
+			}
+		}
+	}
 	return keys
+}
+
+func (x *Xlat) allocFacts(st *State, v *Term, depth int) *Term {
+	switch {
+	case v.Sort == SSlice:
+		return Or(Eq(SArr(v), IntLit(0)), Sel(x.get(st, arrAllocKey, ArrSort(SInt, SBool)), SArr(v)))
+	case v.Sort == SRef:
+		return Or(Eq(v, TNull), Sel(x.get(st, allocKey, ArrSort(SRef, SBool)), v))
+	}
+	d := x.ctx.dtByName[v.Sort]
+	if d == nil || depth > 3 {
+		return TTrue
+	}
+	var cs []*Term
+	for _, f := range d.Fields {
+		if f.Sort == v.Sort {
+			continue
+		}
+		if c := x.allocFacts(st, App(f.Name, f.Sort, v), depth+1); !c.IsTrue() {
+			cs = append(cs, c)
+		}
+	}
+	if len(cs) == 0 {
+		return TTrue
+	}
+	return And(cs...)
 }
 
 func (x *Xlat) havocBoundClosureCalls(st *State, fr *Frame, n ast.Node, seen map[*ast.FuncLit]bool) {
